@@ -87,11 +87,51 @@ private def polyHist (p : Int) (as rs : List Int) : List Char → Option PolySys
     | none => none
     | some n => polyHist p as rs ops (some n)
 
+private def parseSlot (c : Char) : Option Nat :=
+  if '0' ≤ c ∧ c ≤ '3' then some (c.toNat - '0'.toNat) else none
+
+/-- a program over several `IntRNSsystem` objects (operation codes as in h_crt.cpp `run_mirns`), executed with the model's
+    `intStep`; returns the final object -/
+private def intProg (A B : List Int) (a : Int) : List String → IntEnv → Option Nat → Option IntSys
+  | [], e, some f => some (e f)
+  | [], _, none => none
+  | op :: ops, e, f =>
+    let pick (x : Char) : List Int := if x == 'B' then B else A
+    match op.toList with
+    | ['n', s, x] => (parseSlot s).bind fun S => intProg A B a ops (intStep cof e (.construct S (pick x))) f
+    | ['t', s, x] => (parseSlot s).bind fun S => intProg A B a ops (intStep cof e (.construct S (pick x))) f
+    | ['d', s] => (parseSlot s).bind fun S => intProg A B a ops (intStep cof e (.default S)) f
+    | ['c', s, t] => (parseSlot s).bind fun S => (parseSlot t).bind fun T => intProg A B a ops (intStep cof e (.copyConstruct S T)) f
+    | ['a', s, t] => (parseSlot s).bind fun S => (parseSlot t).bind fun T => intProg A B a ops (intStep cof e (.assign S T)) f
+    | ['q', s] => (parseSlot s).bind fun S =>
+        intProg A B a ops (intStep cof (intStep cof e (.toRns S a)) (.toRing S ((e S).toRns a))) f
+    | ['k', s] => (parseSlot s).bind fun S => intProg A B a ops (intStep cof e (.reciprocals S)) f
+    | ['m', s] => (parseSlot s).bind fun S => intProg A B a ops (intStep cof e (.product S)) f
+    | ['f', s] => (parseSlot s).bind fun S => intProg A B a ops e (some S)
+    | _ => none
+
+private def rnsProg (A B : List Int) (a : Int) : List String → RnsEnv → Option Nat → Option RnsSys
+  | [], e, some f => some (e f)
+  | [], _, none => none
+  | op :: ops, e, f =>
+    let pick (x : Char) : List Int := if x == 'B' then B else A
+    match op.toList with
+    | ['n', s, x] => (parseSlot s).bind fun S => rnsProg A B a ops (rnsStep cof e (.construct S (pick x))) f
+    | ['d', s] => (parseSlot s).bind fun S => rnsProg A B a ops (rnsStep cof e (.default S)) f
+    | ['c', s, t] => (parseSlot s).bind fun S => (parseSlot t).bind fun T => rnsProg A B a ops (rnsStep cof e (.copyConstruct S T)) f
+    | ['a', s, t] => (parseSlot s).bind fun S => (parseSlot t).bind fun T => rnsProg A B a ops (rnsStep cof e (.assign S T)) f
+    | ['s', s, x] => (parseSlot s).bind fun S => rnsProg A B a ops (rnsStep cof e (.setPrimes S (pick x))) f
+    | ['q', s] => (parseSlot s).bind fun S =>
+        rnsProg A B a ops (rnsStep cof (rnsStep cof e (.toRns S a)) (.toRing S ((e S).toRns a))) f
+    | ['k', s] => (parseSlot s).bind fun S => rnsProg A B a ops (rnsStep cof e (.reciprocals S)) f
+    | ['f', s] => (parseSlot s).bind fun S => rnsProg A B a ops e (some S)
+    | _ => none
+
 /-- reciprocals are determined only modulo `p_k` for the Bezout cofactor of `mpz_gcdext` -/
 private def ckEquiv (ps cm ci : List Int) : Bool :=
   cm.length == ci.length && ((ps.drop 1).zip (cm.zip ci)).all (fun x => (x.2.1 - x.2.2) % x.1 == 0)
 
-private def sysLine (isInt : Bool) (hist : String) (nums : List Int) (res : List Int) (line : String) : String :=
+private def sysLine (isInt isProg : Bool) (hist : String) (nums : List Int) (res : List Int) (line : String) : String :=
   match takeCounted nums with
   | none => "BAD args | " ++ line
   | some (A, rest) =>
@@ -121,7 +161,7 @@ private def sysLine (isInt : Bool) (hist : String) (nums : List Int) (res : List
         (if isInt then prodI == M else cs.all (fun c => decide (0 ≤ c)) && ((A.drop 1).zip cs).all (fun pc => decide (pc.2 < pc.1)))
       -- model
       if isInt then
-        match intHist A B a hist.toList none with
+        match (if isProg then intProg A B a (hist.splitOn ",") IntEnv.init none else intHist A B a hist.toList none) with
         | none => "BAD hist | " ++ line
         | some s =>
           if s.primes != A then "BAD hist-primes | " ++ line else
@@ -134,7 +174,7 @@ private def sysLine (isInt : Bool) (hist : String) (nums : List Int) (res : List
           let modelOk := mx == x && mm == ms && ckEquiv A (mc.drop 1) cs && mt == ts && mp == prodI && my == y
           verdict specOk modelOk s!"{hexInt mx} {showL mm} {showL (mc.drop 1)} {showL mt} {hexInt mp} {hexInt my}" line
       else
-        match rnsHist A B a hist.toList none with
+        match (if isProg then rnsProg A B a (hist.splitOn ",") RnsEnv.init none else rnsHist A B a hist.toList none) with
         | none => "BAD hist | " ++ line
         | some s =>
           if s.primes != A then "BAD hist-primes | " ++ line else
@@ -194,6 +234,39 @@ private def pcrtLine (hist : String) (nums res : List Int) (line : String) : Str
           verdict (polyChk p as rs P && ts == rs) (mN == P && mt == ts) s!"{hexNat mN.length} {showL mN} {showL mt}" line
   | _ => "BAD args | " ++ line
 
+/-- `prt.<dom> hist p n a.. k c.. = t.. k' c'..`: RingToRns of a polynomial, then RnsToRing -/
+private def prtLine (hist : String) (nums res : List Int) (line : String) : String :=
+  match nums with
+  | p :: rest =>
+    match takeCounted rest with
+    | none => "BAD args | " ++ line
+    | some (as, rest2) =>
+      match takeCounted rest2 with
+      | none => "BAD args | " ++ line
+      | some (P, extra) =>
+        let n := as.length
+        if !extra.isEmpty then "BAD args | " ++ line else
+        let Pm := as.map (fun _ => p)
+        let Pk := P.map (fun _ => p)
+        if !(n ≥ 1 && decide (2 ≤ p) && canonical Pm as && canonical Pk P && distinctMod p as) then "PRE" else
+        if res.length < n + 1 then "BAD result | " ++ line else
+        let ts := res.take n
+        match takeCounted (res.drop n) with
+        | none => "BAD result | " ++ line
+        | some (Q, extra2) =>
+          if !extra2.isEmpty then "BAD result | " ++ line else
+          match polyHist p as ts hist.toList none with
+          | none => "BAD hist | " ++ line
+          | some s =>
+            let mt := s.toRns P
+            let (_, mQ) := s.rnsToRing cof mt
+            let mN := polyNorm mQ
+            -- specification: residues are the values of P; the polynomial returned interpolates them, has degree < n, and is P itself
+            -- (normalised) whenever deg P < n
+            let specOk := ts == as.map (evalRef p P) && polyChk p as ts Q && (if P.length ≤ n then Q == polyNorm P else true)
+            verdict specOk (mt == ts && mN == Q) s!"{showL mt} {hexNat mN.length} {showL mN}" line
+  | _ => "BAD args | " ++ line
+
 def crtLine (line : String) : String :=
   match splitLine line with
   | none => "BAD empty"
@@ -203,10 +276,14 @@ def crtLine (line : String) : String :=
     | hist :: numArgs =>
       -- the harness runs cases in child processes: a crash / sanitizer abort is reported on the exact input line
       if res == ["CRASH"] then "DIFF kind=SPEC model=- implementation crashed or was aborted by a sanitizer | " ++ line.trimAscii.toString else
+      if res == ["BADSTATE"] then "DIFF kind=SPEC model=- the final object does not hold the moduli list the program gave it | " ++ line.trimAscii.toString else
       match parseAll numArgs, parseAll res with
       | some nums, some rs =>
-        if key == "irns" then sysLine true hist nums rs line
-        else if key.startsWith "rns." then sysLine false hist nums rs line
+        if key == "irns" then sysLine true false hist nums rs line
+        else if key.startsWith "rns." then sysLine false false hist nums rs line
+        else if key == "mirns" then sysLine true true hist nums rs line
+        else if key.startsWith "mrns." then sysLine false true hist nums rs line
+        else if key.startsWith "prt." then prtLine hist nums rs line
         else if key == "fixed" then fixedLine nums rs line
         else if key.startsWith "cra." then craLine hist nums rs line
         else if key.startsWith "pcrt." then pcrtLine hist nums rs line
